@@ -179,6 +179,27 @@ func zipvecMain(args []string) int {
 	mimetype.SetLimit(0)
 	var n, positive, deflated int64
 	classes := map[string]int{}
+	// callers reuse read buffers: the same backing array successively holds different archives of
+	// the same length (often with identical fixed header parts: no time stamps, sizes in the
+	// descriptor); the verdict must be the one obtained on a private copy
+	reuse := map[int][]byte{}
+	var reused, reusedSameHeader int64
+	reuseCheck := func(raw []byte, fresh string, what string) {
+		buf, ok := reuse[len(raw)]
+		if !ok {
+			buf = make([]byte, len(raw))
+			reuse[len(raw)] = buf
+		} else {
+			reused++
+			if len(raw) >= 30 && bytes.Equal(buf[:30], raw[:30]) {
+				reusedSameHeader++
+			}
+		}
+		copy(buf, raw)
+		if got := mimetype.Detect(buf).String(); got != fresh {
+			rep.violate(Violation{Property: "C19", Kind: "reused-buffer", Text: what, Detail: fmt.Sprintf("in a reused buffer Detect reports %s, on a private copy %s", got, fresh), Key: "C19|reuse|" + what})
+		}
+	}
 	err := tlcVectorLines(*in, func(b []byte) {
 		var v zipVec
 		if err := stdjson.Unmarshal(b, &v); err != nil {
@@ -224,6 +245,8 @@ func zipvecMain(args []string) int {
 		m := mimetype.Detect(exact(raw))
 		n++
 		cls := zipClass(m)
+		key0 := fmt.Sprintf("names=%v sizes=%v desc=%d deflate=%v", names, entries, v.D, deflate)
+		reuseCheck(raw, m.String(), key0)
 		classes[cls]++
 		key := fmt.Sprintf("names=%v sizes=%v desc=%d deflate=%v", names, entries, v.D, deflate)
 		if !contains(v.OK, cls) {
@@ -256,8 +279,9 @@ func zipvecMain(args []string) int {
 		"application/vnd.oasis.opendocument.formula", "application/vnd.oasis.opendocument.chart", "application/vnd.sun.xml.calc"}
 	var odfN int64
 	for _, t := range odf {
-		for _, rest := range [][]zipEntry{{}, {{"META-INF/manifest.xml", 40, 0}, {"content.xml", 300, 0}}, {{"META-INF/MANIFEST.MF", 5, 0}}, {{"word/document.xml", 5, 0}, {"[Content_Types].xml", 5, 0}}} {
-			for _, desc := range []bool{false} { // the mimetype entry must be stored without descriptor per the ODF / EPUB container rules
+		for _, rest := range [][]zipEntry{{}, {{"META-INF/manifest.xml", 40, 0}, {"content.xml", 300, 0}}, {{"META-INF/MANIFEST.MF", 5, 0}}, {{"word/document.xml", 5, 0}, {"[Content_Types].xml", 5, 0}},
+			{{"content.xml", 300, 0}, {"META-INF/MANIFEST.MF", 60, 0}}, {{"content.xml", 120, 0}, {"styles.xml", 80, 0}, {"classes.dex", 60, 0}}, {{"AndroidManifest.xml", 20, 0}}} {
+			for _, desc := range []bool{false, true} { // "with and without data descriptors": a streaming writer leaves the sizes of the stored entry to the descriptor
 				entries := append([]zipEntry{{"mimetype", len(t), 0}}, rest...)
 				raw, err := buildZip(entries, desc, false, rng, []byte(t))
 				if err != nil {
@@ -267,8 +291,9 @@ func zipvecMain(args []string) int {
 				m := mimetype.Detect(exact(raw))
 				n++
 				odfN++
+				reuseCheck(raw, m.String(), fmt.Sprintf("mimetype=%s rest=%v desc=%v", t, rest, desc))
 				if baseType(m.String()) != t {
-					rep.violate(Violation{Property: "C19", Kind: "mimetype-first", Text: fmt.Sprintf("mimetype=%s rest=%v", t, rest), Detail: "Detect reports " + m.String(), Key: "C19|odf|" + t + fmt.Sprint(len(rest))})
+					rep.violate(Violation{Property: "C19", Kind: "mimetype-first", Text: fmt.Sprintf("mimetype=%s rest=%v desc=%v", t, rest, desc), Detail: "Detect reports " + m.String(), Key: "C19|odf|" + t + fmt.Sprint(len(rest), desc)})
 				}
 				for p := m.Parent(); p != nil; p = p.Parent() {
 					if p.Parent() != nil && p.Parent().Parent() == nil && p.String() != "application/zip" {
@@ -285,6 +310,8 @@ func zipvecMain(args []string) int {
 	rep.Extra["archives_with_a_single_allowed_non_zip_class"] = positive
 	rep.Extra["mimetype_first_archives"] = odfN
 	rep.Extra["deflated_archives"] = deflated
+	rep.Extra["detections_in_a_reused_buffer"] = reused
+	rep.Extra["reused_with_identical_first_header"] = reusedSameHeader
 	rep.Extra["classes"] = classes
 	rep.write(*out)
 	return 0
